@@ -573,6 +573,11 @@ func (g *gatedPacket) Encode(dst []byte) (int, error) {
 func (x *c03) closeBehindSend() {
 	c := x.c
 	r := c.Rng
+	// the clause this is judged under: C19 "close loses nothing", C03 "the wire is the concatenation of the accepted encodings under every schedule"
+	flushClause := "c19_close_flushes"
+	if x.prop == "c03" {
+		flushClause = "c03_wire_is_concat"
+	}
 	for round := 0; round < 8; round++ {
 		x.bump()
 		n := x.n
@@ -651,12 +656,12 @@ func (x *c03) closeBehindSend() {
 		w := wireClause(wire, accepted, nil, true)
 		switch {
 		case w != "":
-			c.Emit("direct c19_close_flushes %d FAIL closeBehindSend(%s): a buffered %s was accepted, another Send (returned %v) was in progress when Close (returned %v) was called: %s",
+			c.Emit("direct "+flushClause+" %d FAIL closeBehindSend(%s): a buffered %s was accepted, another Send (returned %v) was in progress when Close (returned %v) was called: %s",
 				n, variant, first.Type(), e2, cerr, w)
 		case early:
-			c.Emit("direct c19_close_flushes %d FAIL closeBehindSend(%s): Close returned while a Send was still in progress", n, variant)
+			c.Emit("direct "+flushClause+" %d FAIL closeBehindSend(%s): Close returned while a Send was still in progress", n, variant)
 		default:
-			c.Emit("direct c19_close_flushes %d ok", n)
+			c.Emit("direct "+flushClause+" %d ok", n)
 		}
 		c.Stat("close_flushes_checks", 1)
 		c.Stat("close_behind_send", 1)
